@@ -200,7 +200,7 @@ def fld(n, t, rand=True):
 def atomic_programs(tier, rnd):
     """every binary operator x operand types x right-operand kind"""
     out = []
-    tys = TYPES_SMALL
+    tys = TYPES_SMALL if tier == "quick" else TYPES_SMALL + [("u", 1), ("s", 2), ("u", 5), ("s", 7)]
     for op in CMP + ARI_BASIC + ARI_MUL + SHIFT:
         for lt, rt in itertools.product(tys, repeat=2):
             for rkind in ("rand", "nonrand", "lit", "sized"):
@@ -451,7 +451,7 @@ def c01_programs(tier, sd):
     out = atomic_programs(tier, rnd) + statement_programs(tier, rnd) + structure_programs(tier, rnd) + constfold_programs(tier, rnd) + \
         rangelist_history_programs(tier, rnd)
     if tier == "thorough":
-        out += random_programs(rnd, 1500)
+        out += random_programs(rnd, 12000)
     else:
         out += random_programs(rnd, 150)
     return out
@@ -686,7 +686,7 @@ def c02_programs(tier, sd):
     extra = [p for p in c03_programs(tier, sd) if p["tag"] == "history_fail"][::(1 if tier == "thorough" else 4)] + \
         [p for p in c06_programs(tier, sd) if p["tag"] == "inline_fail"]
     return constfold_programs(tier, rnd) + unsat_programs(tier, rnd) + sum_edge_programs(tier, rnd) + extra + base + structure_programs(tier, rnd) + rangelist_history_programs(tier, rnd) + \
-        random_programs(random.Random(sd + 1), 1500 if tier == "thorough" else 150)
+        random_programs(random.Random(sd + 1), 12000 if tier == "thorough" else 150)
 
 
 # ------------------------------------------------------------------------------------------ C03 histories
@@ -728,7 +728,7 @@ def c03_programs(tier, sd):
                  ["vsc_randomize_with", [["top", "a"], ["top", "b"]], [E(["<", F("top", "a"), F("top", "c")]), E([">", F("top", "b"), F("top", "s", "z")])]],
                  ["randomize_with", ["top"], [E(["==", a, lit(1)]), E(["==", a, lit(2)])]],          # unsatisfiable call
                  ["randomize_with", ["top"], [E(["==", F("s", "y"), lit(0)]), E([">=", b, lit(-128)])]]]
-        nh = 60 if tier == "quick" else 600
+        nh = 60 if tier == "quick" else 5000
         # systematic: every single edit followed by every call kind
         def flat(e):
             return list(e[1]) if e[0] == "seq" else [e]
@@ -811,7 +811,7 @@ def c05_programs(tier, sd):
                                                               ["randomize_with", ["top"], [S(["==", a, lit(6)])]], ["randomize", ["top"]]],
                     "soft_order_fixed": False})
     # seeded
-    for i in range(40 if tier == "quick" else 500):
+    for i in range(40 if tier == "quick" else 6000):
         body = []
         for _ in range(rnd.randint(2, 4)):
             f = rnd.choice([a, b])
@@ -891,7 +891,7 @@ def c06_programs(tier, sd):
                     "ops": [["randomize", ["h"]], ["randomize_with", ["h"], fail], ["list_append", ["h", "l"], 0], ["randomize", ["h"]],
                             ["randomize_with", ["h"], fail], ["list_append", ["h", "l"], 0], ["randomize_with", ["h"], [E(["<", F("k"), lit(9)])]], ["randomize", ["h"]]]})
     # inline-only sequences: leak between calls
-    for i in range(30 if tier == "quick" else 300):
+    for i in range(30 if tier == "quick" else 4000):
         ops = [["set", ["top", "n"], rnd.randint(0, 3)]]
         for _ in range(rnd.randint(2, 4)):
             r = rnd.random()
@@ -959,7 +959,7 @@ def c07_programs(tier, sd):
             out.append({"tag": "cmode_nested", "desc": "toggle %s of %s" % (bn, p), "prog": pr, "world": [["h", "obj", "Hold"], ["h2", "obj", "Hold"]],
                         "ops": [["randomize", ["h"]], ["cmode", p, bn, False], ["randomize", ["h"]], ["randomize", ["h2"]],
                                 ["cmode", ["h"], "hk", False], ["randomize", ["h"]], ["cmode", p, bn, True], ["randomize", ["h"]]]})
-    for i in range(30 if tier == "quick" else 300):
+    for i in range(30 if tier == "quick" else 3000):
         ops = []
         for _ in range(rnd.randint(3, 7)):
             if rnd.random() < 0.55:
@@ -1185,7 +1185,7 @@ def c16_programs(tier, sd):
              [["randomize_with", ["p"], unsat], ["randomize_with", ["p"], [E(["<", a, lit(6)]), ["raise", "s"]]],
               ["seq", [["set", ["p", "ff"], 1], ["randomize", ["p"]], ["set", ["p", "ff"], 0]]],
               ["seq", [["set", ["p", "ff"], 2], ["randomize", ["p"]], ["set", ["p", "ff"], 0]]]]
-    for i in range(25 if tier == "quick" else 300):
+    for i in range(25 if tier == "quick" else 2500):
         ops = []
         for _ in range(rnd.randint(2, 5)):
             f = rnd.choice(faults)
